@@ -512,6 +512,10 @@ def _check_values(out, got, orc, lab):
         a = key[1]
         lo, hi = g
         vmin, vmax = float(orc.vmin), float(orc.vmax)
+        if a == 0.0 and not (_isnan(lo) or _isnan(hi)) and (lo != vmin or hi != vmax):
+            # alpha = 0 is the 100% interval: the quantile is infinite, only minimum and maximum limit it
+            out.fail("value:confidence_interval:alpha-zero", {"got": _enc(g), "min": _enc(vmin), "max": _enc(vmax)})
+            continue
         if 1.0 - a / 2.0 >= 1.0 or a < 1e-6:
             # quantile not representable through inv_cdf(1 - alpha/2): envelope only
             for side, v, ok in (("lo", lo, lambda v: vmin <= v <= mean + A1),
